@@ -1,2 +1,169 @@
+"""C19 bounded part (replay / cross-check of the frame and cache contracts): the same calls give the same answers
+  (a) in a fresh interpreter (one subprocess per call - nothing shared),
+  (b) after seeded random sequences of the other calls in one process, including > 256 distinct patterns (more than a cache-full),
+      the same text under different flags / as bytes, translate and compile interleaved,
+  (c) when 8 threads run shuffled copies of the call list concurrently;
+matcher objects: equal and hash-equal iff built from the same patterns and flags, unequal when built from different ones, immutable,
+pickle / copy / deepcopy clones are equal to and behave as the original, reuse for many calls."""
+import copy
+import json
+import os
+import pickle
+import random
+import subprocess
+import sys
+import threading
+
+from vlib.common import REPO
+
+NAMES = ['a', 'a.txt', '.h', 'A', 'ab', 'd/a', 'd/.h', 'x/y/a.txt', 'b', 'a\n']
+
+
+def calls():
+    """(key, python expression evaluated with `fnmatch`, `glob`, `NAMES` in scope) - results must be JSON-serialisable"""
+    out = []
+    pats = ['*', 'a*', '*.txt', '[ab]', '!(a)', '@(a|b)*', '**/a', '?', 'A', '{a,b}', 'a|b', '!a', '.*', '**', '*/*']
+    ff = ['0', 'fnmatch.E', 'fnmatch.I', 'fnmatch.D', 'fnmatch.E | fnmatch.N', 'fnmatch.B | fnmatch.S', 'fnmatch.C', 'fnmatch.N | fnmatch.A']
+    gf = ['0', 'glob.G', 'glob.G | glob.E', 'glob.D | glob.G', 'glob.I', 'glob.G | glob.N | glob.A', 'glob.B | glob.S', 'glob.X | glob.G']
+    for p in pats:
+        for f in ff:
+            out.append((f'fn.filter {p} {f}', f'fnmatch.filter(NAMES, {p!r}, flags={f})'))
+        for f in gf:
+            out.append((f'gl.filter {p} {f}', f'glob.globfilter(NAMES, {p!r}, flags={f})'))
+        out.append((f'fn.translate {p}', f'[list(x) for x in fnmatch.translate({p!r}, flags=fnmatch.E | fnmatch.N)]'))
+        out.append((f'gl.translate {p}', f'[list(x) for x in glob.translate({p!r}, flags=glob.G | glob.E)]'))
+        out.append((f'fn.bytes {p}', f'[x.decode() for x in fnmatch.filter([n.encode() for n in NAMES], {p.encode()!r}, flags=fnmatch.E)]'))
+        out.append((f'gl.compile {p}', f'[n for n in NAMES if glob.compile({p!r}, flags=glob.G | glob.E).match(n)]'))
+    return out
+
+
+PRELUDE = f"import sys, json; sys.path.insert(0, {REPO!r})\nfrom wcmatch import fnmatch, glob\nNAMES = {NAMES!r}\n"
+
+
+def fresh_results(cs, chunk=12):
+    """each call in its own interpreter"""
+    res = {}
+    procs = []
+    for key, expr in cs:
+        code = PRELUDE + f"print(json.dumps({expr}))\n"
+        procs.append((key, subprocess.Popen([sys.executable, '-c', code], stdout=subprocess.PIPE, stderr=subprocess.PIPE, text=True)))
+        if len(procs) >= chunk:
+            for k, p in procs:
+                o, e = p.communicate()
+                res[k] = json.loads(o) if p.returncode == 0 else f'ERR {e[-200:]}'
+            procs = []
+    for k, p in procs:
+        o, e = p.communicate()
+        res[k] = json.loads(o) if p.returncode == 0 else f'ERR {e[-200:]}'
+    return res
+
+
 def run(chk, tier, seed):
-    pass
+    if REPO not in sys.path:
+        sys.path.insert(0, REPO)
+    from wcmatch import fnmatch, glob, _wcparse
+    cs = calls()
+    if tier == 'quick':
+        cs = cs[::3]
+    rnd = random.Random(seed * 97 + 19)
+    want = fresh_results(cs, chunk=16)
+    env = dict(fnmatch=fnmatch, glob=glob, NAMES=NAMES)
+    bad_fresh = [k for k, v in want.items() if isinstance(v, str) and v.startswith('ERR')]
+    for k in bad_fresh[:3]:
+        chk.broke(f'C19 harness: fresh interpreter failed for {k}: {want[k]}')
+
+    def one(key, expr):
+        return json.loads(json.dumps(eval(expr, dict(env))))
+
+    def report(kind, key, expr, got):
+        chk.violation(dict(obligation='C19.bounded.' + kind, call=key, witness=key),
+                      f'{kind}: {expr} -> {str(got)[:120]} but a fresh interpreter gives {str(want[key])[:120]}',
+                      PRELUDE + f"print({expr})\nsys.exit(1)\n")
+    n = 0
+    # (b) sequences: shuffled whole list, with a cache flood (> 256 distinct patterns) in the middle, several rounds
+    for rnd_i in range(2 if tier == 'quick' else 6):
+        order = list(cs)
+        rnd.shuffle(order)
+        half = len(order) // 2
+        for idx, (key, expr) in enumerate(order):
+            if idx == half:
+                for i in range(300):
+                    fnmatch.fnmatch('x', f'flood{rnd_i}_{i}*')          # more than a cache-full of distinct patterns
+            got = one(key, expr)
+            n += 1
+            if got != want[key]:
+                report('answer-depends-on-call-history', key, expr, got)
+    chk.case(key='history', n=n)
+    # (c) threads
+    errs = []
+
+    def worker(tid):
+        r = random.Random(seed * 1000 + tid)
+        order = list(cs)
+        r.shuffle(order)
+        for key, expr in order:
+            try:
+                got = one(key, expr)
+            except Exception as e:      # noqa
+                errs.append((key, expr, f'{type(e).__name__}: {e}'))
+                continue
+            if got != want[key]:
+                errs.append((key, expr, got))
+    ths = [threading.Thread(target=worker, args=(t,)) for t in range(8)]
+    for t in ths:
+        t.start()
+    for t in ths:
+        t.join()
+    chk.case(key='threads', n=8 * len(cs))
+    for key, expr, got in errs[:5]:
+        report('answer-differs-under-concurrent-threads', key, expr, got)
+    # matcher objects
+    m = 0
+    combos = [(p, f) for p in ['*.txt', ['a*', '!ab'], '**/a', '@(a|b)'] for f in (glob.G | glob.E, glob.G | glob.E | glob.N, glob.G | glob.E | glob.D)]
+    builders = [(f'{api.__name__}.compile({p!r}, flags={f & api.FLAG_MASK})', (lambda api=api, p=p, f=f: api.compile(p, flags=f & api.FLAG_MASK))) for api in (fnmatch, glob) for p, f in combos]
+    builders += [(f"glob.compile({p!r}, flags={f}, exclude='b*')", (lambda p=p, f=f: glob.compile(p, flags=f, exclude='b*'))) for p, f in combos[:3]]
+    builders += [("glob.compile('**/a', flags=glob.G | glob.P)", lambda: glob.compile('**/a', flags=glob.G | glob.P)),
+                 ("fnmatch.compile(b'*.txt')", lambda: fnmatch.compile(b'*.txt')), ("fnmatch.compile('*.txt', flags=fnmatch.I)", lambda: fnmatch.compile('*.txt', flags=fnmatch.I))]
+    objs = []
+    for what, mk in builders:
+        o, twin = mk(), mk()
+        objs.append((what, o))
+        m += 1
+        names = [x.encode() for x in NAMES] if "b'" in what.split('(', 1)[1][:3] else NAMES
+        real = 'glob.P' in what
+        kw = dict(root_dir='/nonexistent-root-for-c19') if real else {}
+        sig = dict(obligation='C19.bounded.matcher_objects', call=what, witness=what)
+        if not (o == twin and hash(o) == hash(twin) and not (o != twin)):
+            chk.violation(sig, f'{what}: two matchers built from the same patterns and flags are not equal / hash-equal', None)
+        for clone, nm in ((pickle.loads(pickle.dumps(o)), 'pickle'), (copy.copy(o), 'copy'), (copy.deepcopy(o), 'deepcopy')):
+            if not (clone == o and hash(clone) == hash(o)) or [clone.match(x, **kw) for x in names] != [o.match(x, **kw) for x in names] or clone.filter(names, **kw) != o.filter(names, **kw):
+                chk.violation(dict(sig, kind=nm), f'{what}: the {nm} clone is not equal to / does not behave as the original', None)
+        first = [o.match(x, **kw) for x in names]
+        if any([o.match(x, **kw) for x in names] != first for _ in range(3)) or o.filter(names, **kw) != [x for x, ok in zip(names, first) if ok]:
+            chk.violation(sig, f'{what}: reuse of one matcher gives different answers', None)
+        for attr in ('_matcher', '_hash'):
+            try:
+                setattr(o, attr, None)
+                chk.violation(sig, f'{what}: attribute {attr} of the matcher can be assigned (not immutable)', None)
+            except AttributeError:
+                pass
+        inner = getattr(o, '_matcher', None)
+        for attr in ('_include', '_exclude', '_real', '_path', '_follow', '_hash'):
+            try:
+                setattr(inner, attr, None)
+                chk.violation(sig, f'{what}: attribute {attr} of the inner WcRegexp can be assigned (not immutable)', None)
+            except AttributeError:
+                pass
+    strs = [(w, o) for w, o in objs if "b'" not in w and 'glob.P' not in w]
+    for i, (w1, o1) in enumerate(strs):
+        for w2, o2 in strs[i + 1:]:
+            m += 1
+            if o1 == o2 and [o1.match(x) for x in NAMES] != [o2.match(x) for x in NAMES]:
+                chk.violation(dict(obligation='C19.bounded.matcher_objects', call=f'{w1} vs {w2}', witness=''), f'matchers that accept different names compare equal: {w1} vs {w2}', None)
+    chk.case(key='matchers', n=m)
+    chk.rule = ('bounded cross-check of the frame / cache contracts: every call of a fixed list (15 patterns x 8 flag sets x {fnmatch, glob} filter, translate, bytes, compile+match; '
+                'quick: every third) is evaluated once per fresh interpreter and compared with its value inside seeded shuffled sequences of all the calls with a 300-pattern cache flood, '
+                'and inside 8 concurrently running threads; matcher objects: equality / hash / immutability / pickle-copy-deepcopy clones / reuse')
+    chk.bounds.update(dict(c19_calls=len(cs), c19_sequence_evaluations=n, c19_threads=8, c19_matchers=len(objs)))
+    chk.sample(dict(call=cs[0][1]))
+    chk.assume('threads are scheduled by CPython as they come: the concurrent clause is sampled, not explored (the frame contracts - no module-level mutable state besides the lru_cache - carry it)')
